@@ -122,16 +122,109 @@ pub struct Search {
     pub transitions: u64,
 }
 
+/// How a segment of a witness encoding ends.
+#[derive(Clone, Copy, Debug, PartialEq, Eq)]
+pub enum Form {
+    /// one character in one or two ASCII codewords
+    Ascii1,
+    /// two digits in one ASCII codeword
+    AsciiPair,
+    /// run closed by an explicit unlatch (a dangling shift fills an open triple: de-facto tier)
+    Unlatch,
+    /// run ends exactly at the end of symbol and data, no unlatch (forms a, b)
+    ExactEnd,
+    /// run ends one codeword before the end of the symbol; the rest of the data follows as one
+    /// ASCII codeword with implied unlatch (form d)
+    ImpliedAscii,
+    /// EDIFACT: at a group boundary with <= 2 codewords left the rest follows in ASCII
+    EdifactTail,
+    /// Base256 with explicit length field
+    B256Len,
+    /// Base256 with length 0, to the end of the symbol
+    B256ToEnd,
+}
+
+/// One step of a witness encoding: characters from..to in `mode`, ending with `form`.
+#[derive(Clone, Copy, Debug, PartialEq, Eq)]
+pub struct WSeg {
+    pub mode: Mode,
+    pub from: usize,
+    pub to: usize,
+    pub form: Form,
+}
+
+/// Observer of the search (monomorphised; the plain feasibility test records nothing).
+pub trait Recorder {
+    fn edge(&mut self, from: (usize, usize), to: (usize, usize), seg: WSeg);
+    fn last(&mut self, from: (usize, usize), seg: WSeg);
+}
+
+pub struct NoRecord;
+impl Recorder for NoRecord {
+    #[inline(always)]
+    fn edge(&mut self, _: (usize, usize), _: (usize, usize), _: WSeg) {}
+    #[inline(always)]
+    fn last(&mut self, _: (usize, usize), _: WSeg) {}
+}
+
+/// Records the first edge into every state, to reconstruct one witness path.
+pub struct PathRecord {
+    width: usize,
+    parent: Vec<Option<((usize, usize), WSeg)>>,
+    last: Option<((usize, usize), Option<WSeg>)>,
+}
+
+impl Recorder for PathRecord {
+    fn edge(&mut self, from: (usize, usize), to: (usize, usize), seg: WSeg) {
+        let k = to.0 * self.width + to.1;
+        if k < self.parent.len() && self.parent[k].is_none() {
+            self.parent[k] = Some((from, seg));
+        }
+    }
+    fn last(&mut self, from: (usize, usize), seg: WSeg) {
+        if self.last.is_none() {
+            self.last = Some((from, Some(seg)));
+        }
+    }
+}
+
 /// Is there a legal encoding of `s` that fits `cap` data codewords (pads fill the rest) when
 /// `h` header codewords (macro / FNC1 / ECI) are already written, using only `modes`
 /// (bit i = Mode i)?
 pub fn feasible(s: &[u8], modes: u8, cap: usize, h: usize, tier: Tier, st: &mut Search) -> bool {
+    search(s, modes, cap, h, tier, st, &mut NoRecord).is_some()
+}
+
+/// Like `feasible`, but returns one witness encoding (a list of segments) if there is one.
+pub fn witness(s: &[u8], modes: u8, cap: usize, h: usize, tier: Tier, st: &mut Search) -> Option<Vec<WSeg>> {
+    let width = cap + 1;
+    let mut rec = PathRecord { width, parent: vec![None; (s.len() + 1) * width], last: None };
+    let end = search(s, modes, cap, h, tier, st, &mut rec)?;
+    let mut segs = Vec::new();
+    let mut cur = match rec.last {
+        Some((from, Some(seg))) => {
+            segs.push(seg);
+            from
+        }
+        _ => end,
+    };
+    while cur != (0, h) {
+        let (from, seg) = rec.parent[cur.0 * width + cur.1].expect("reached state has a parent");
+        segs.push(seg);
+        cur = from;
+    }
+    segs.reverse();
+    Some(segs)
+}
+
+/// Breadth-first search over the states (characters consumed, codewords written) at ASCII
+/// boundaries. Returns the final state if the end of data is reachable within `cap`.
+fn search<R: Recorder>(s: &[u8], modes: u8, cap: usize, h: usize, tier: Tier, st: &mut Search, rec: &mut R) -> Option<(usize, usize)> {
     let n = s.len();
     if h > cap {
-        return false;
+        return None;
     }
     let en = |m: Mode| modes & m.bit() != 0;
-    // reach[i][w]: ASCII-boundary state "i characters consumed, w codewords written" is reachable
     let width = cap + 1;
     let mut reach = vec![false; (n + 1) * width];
     reach[h] = true;
@@ -142,32 +235,36 @@ pub fn feasible(s: &[u8], modes: u8, cap: usize, h: usize, tier: Tier, st: &mut 
             }
             st.states += 1;
             if i == n {
-                return true; // pads fill the rest
+                return Some((i, w)); // pads fill the rest
             }
             macro_rules! go {
-                ($j:expr, $w:expr) => {{
+                ($j:expr, $w:expr, $mode:expr, $form:expr) => {{
                     st.transitions += 1;
                     let (j, w2): (usize, usize) = ($j, $w);
                     if w2 <= cap {
+                        rec.edge((i, w), (j, w2), WSeg { mode: $mode, from: i, to: j, form: $form });
                         if j == n {
-                            return true;
+                            return Some((j, w2));
                         }
                         reach[j * width + w2] = true;
                     }
                 }};
             }
+            // the encoding ends with this segment, exactly at the end of the symbol;
+            // `$j` = characters covered by the run itself (the rest follows as the form says)
             macro_rules! end_exact {
-                ($w:expr) => {{
+                ($w:expr, $j:expr, $mode:expr, $form:expr) => {{
                     st.transitions += 1;
                     if $w == cap {
-                        return true;
+                        rec.last((i, w), WSeg { mode: $mode, from: i, to: $j, form: $form });
+                        return Some((n, cap));
                     }
                 }};
             }
             if en(Mode::Ascii) {
-                go!(i + 1, w + if s[i] < 128 { 1 } else { 2 });
+                go!(i + 1, w + if s[i] < 128 { 1 } else { 2 }, Mode::Ascii, Form::Ascii1);
                 if i + 1 < n && s[i].is_ascii_digit() && s[i + 1].is_ascii_digit() {
-                    go!(i + 2, w + 1);
+                    go!(i + 2, w + 1, Mode::Ascii, Form::AsciiPair);
                 }
             }
             let base = w + 1; // after the latch codeword
@@ -182,9 +279,9 @@ pub fn feasible(s: &[u8], modes: u8, cap: usize, h: usize, tier: Tier, st: &mut 
                     let padded = 2 * ((v + 2) / 3);
                     match v % 3 {
                         0 => {
-                            go!(j, base + full + 1); // Unlatch
+                            go!(j, base + full + 1, m, Form::Unlatch);
                             if j == n {
-                                end_exact!(base + full); // (a)
+                                end_exact!(base + full, j, m, Form::ExactEnd); // (a)
                             }
                             // (d): one codeword left in the symbol, ASCII with implied unlatch
                             let rest = &s[j..];
@@ -196,23 +293,23 @@ pub fn feasible(s: &[u8], modes: u8, cap: usize, h: usize, tier: Tier, st: &mut 
                                     Tier::Lenient => true,
                                 };
                                 if ok {
-                                    end_exact!(base + full + 1);
+                                    end_exact!(base + full + 1, j, m, Form::ImpliedAscii);
                                 }
                             }
                         }
                         2 => {
                             if j == n {
-                                end_exact!(base + padded); // (b): pad value Shift 1, no unlatch
+                                end_exact!(base + padded, j, m, Form::ExactEnd); // (b): pad value Shift 1
                             }
                             if tier >= Tier::DeFacto {
-                                go!(j, base + padded + 1); // dangling shift, Unlatch
+                                go!(j, base + padded + 1, m, Form::Unlatch); // dangling shift, Unlatch
                             }
                         }
                         _ => {
                             if tier >= Tier::DeFacto {
-                                go!(j, base + padded + 1); // dangling shift + upper shift, Unlatch
+                                go!(j, base + padded + 1, m, Form::Unlatch); // dangling shift + upper shift
                                 if j == n {
-                                    end_exact!(base + padded);
+                                    end_exact!(base + padded, j, m, Form::ExactEnd);
                                 }
                             }
                         }
@@ -225,14 +322,14 @@ pub fn feasible(s: &[u8], modes: u8, cap: usize, h: usize, tier: Tier, st: &mut 
                     j += 1;
                     if (j - i) % 3 == 0 {
                         let cwn = 2 * (j - i) / 3;
-                        go!(j, base + cwn + 1);
+                        go!(j, base + cwn + 1, Mode::X12, Form::Unlatch);
                         if j == n {
-                            end_exact!(base + cwn);
+                            end_exact!(base + cwn, j, Mode::X12, Form::ExactEnd);
                         }
                         let rest = &s[j..];
                         if !rest.is_empty() && rest.len() <= 2 && ascii_size(rest) == 1 {
                             if rest.len() == 1 || tier >= Tier::DeFacto {
-                                end_exact!(base + cwn + 1);
+                                end_exact!(base + cwn + 1, j, Mode::X12, Form::ImpliedAscii);
                             }
                         }
                     }
@@ -250,7 +347,8 @@ pub fn feasible(s: &[u8], modes: u8, cap: usize, h: usize, tier: Tier, st: &mut 
                             let rest = &s[j..];
                             if rest.len() <= 4 && ascii_size(rest) <= cap - pos {
                                 st.transitions += 1;
-                                return true;
+                                rec.last((i, w), WSeg { mode: Mode::Edifact, from: i, to: j, form: Form::EdifactTail });
+                                return Some((n, cap));
                             }
                         }
                     }
@@ -259,7 +357,7 @@ pub fn feasible(s: &[u8], modes: u8, cap: usize, h: usize, tier: Tier, st: &mut 
                         let bytes = 3 * ((r + 1) / 4) + (r + 1) % 4;
                         let last_group_start = base + 3 * (r / 4);
                         if last_group_start + 3 <= cap {
-                            go!(j, base + bytes);
+                            go!(j, base + bytes, Mode::Edifact, Form::Unlatch);
                         }
                     }
                     if j < n && edifact_ok(s[j]) {
@@ -276,15 +374,135 @@ pub fn feasible(s: &[u8], modes: u8, cap: usize, h: usize, tier: Tier, st: &mut 
                         break;
                     }
                     let lenb = if l <= 249 { 1 } else { 2 };
-                    go!(j, base + lenb + l);
+                    go!(j, base + lenb + l, Mode::Base256, Form::B256Len);
                     if j == n {
-                        end_exact!(base + 1 + l); // length 0: to the end of the symbol
+                        end_exact!(base + 1 + l, j, Mode::Base256, Form::B256ToEnd); // length 0
                     }
                 }
             }
         }
     }
-    false
+    None
+}
+
+/// Materialise a witness encoding into the padded codeword stream of capacity `cap`.
+/// `header` holds the codewords already written (macro / FNC1 / ECI).
+pub fn materialise(header: &[u8], s: &[u8], segs: &[WSeg], cap: usize) -> Result<Vec<u8>, String> {
+    let mut cw = header.to_vec();
+    let n = s.len();
+    let ascii_into = |cw: &mut Vec<u8>, chars: &[u8]| {
+        let mut j = 0;
+        while j < chars.len() {
+            if j + 1 < chars.len() && chars[j].is_ascii_digit() && chars[j + 1].is_ascii_digit() {
+                cw.push(130 + (chars[j] - b'0') * 10 + (chars[j + 1] - b'0'));
+                j += 2;
+            } else {
+                if chars[j] >= 128 {
+                    cw.push(235);
+                    cw.push(chars[j] - 127);
+                } else {
+                    cw.push(chars[j] + 1);
+                }
+                j += 1;
+            }
+        }
+    };
+    let mut covered = 0;
+    for seg in segs {
+        if seg.from != covered {
+            return Err(format!("witness segments are not contiguous at {}", seg.from));
+        }
+        let run = &s[seg.from..seg.to];
+        covered = seg.to;
+        match (seg.mode, seg.form) {
+            (Mode::Ascii, Form::Ascii1) | (Mode::Ascii, Form::AsciiPair) => ascii_into(&mut cw, run),
+            (Mode::C40, _) | (Mode::Text, _) | (Mode::X12, _) => {
+                cw.push(seg.mode.latch());
+                let mut vals = Vec::new();
+                for ch in run {
+                    if seg.mode == Mode::X12 {
+                        vals.push(x12_value(*ch).ok_or("not an X12 character")?);
+                    } else {
+                        c40_values(*ch, seg.mode == Mode::Text, &mut vals);
+                    }
+                }
+                match (vals.len() % 3, seg.form) {
+                    (0, _) => {}
+                    (2, Form::ExactEnd) => vals.push(0), // form b: Shift 1 as pad
+                    (2, _) => vals.push(1),              // dangling Shift 2
+                    (_, _) => {
+                        vals.push(1);
+                        vals.push(30); // dangling Shift 2 + Upper Shift
+                    }
+                }
+                for t in vals.chunks(3) {
+                    pack3([t[0], t[1], t[2]], &mut cw);
+                }
+                match seg.form {
+                    Form::Unlatch => cw.push(254),
+                    Form::ExactEnd => {}
+                    Form::ImpliedAscii => {
+                        ascii_into(&mut cw, &s[seg.to..]);
+                        covered = n;
+                    }
+                    other => return Err(format!("form {:?} does not belong to {:?}", other, seg.mode)),
+                }
+            }
+            (Mode::Edifact, form) => {
+                cw.push(240);
+                let mut vals: Vec<u8> = run.iter().map(|c| c & 0x3f).collect();
+                if form == Form::Unlatch {
+                    vals.push(31);
+                }
+                for grp in vals.chunks(4) {
+                    let mut bits: u32 = 0;
+                    for (q, v) in grp.iter().enumerate() {
+                        bits |= (*v as u32) << (18 - 6 * q);
+                    }
+                    let nbytes = if grp.len() == 4 { 3 } else { grp.len() };
+                    for b in 0..nbytes {
+                        cw.push((bits >> (16 - 8 * b)) as u8);
+                    }
+                }
+                if form == Form::EdifactTail {
+                    ascii_into(&mut cw, &s[seg.to..]);
+                    covered = n;
+                }
+            }
+            (Mode::Base256, form) => {
+                cw.push(231);
+                let l = run.len();
+                let mut field: Vec<u8> = Vec::new();
+                if form == Form::B256ToEnd {
+                    field.push(0);
+                } else if l <= 249 {
+                    field.push(l as u8);
+                } else {
+                    field.push((l / 250 + 249) as u8);
+                    field.push((l % 250) as u8);
+                }
+                for b in field.iter().chain(run.iter()) {
+                    let pos = cw.len() + 1;
+                    cw.push(rand255(*b, pos));
+                }
+            }
+            (m, f) => return Err(format!("unexpected segment {:?} {:?}", m, f)),
+        }
+    }
+    if covered != n {
+        return Err("witness does not cover the input".into());
+    }
+    if cw.len() > cap {
+        return Err(format!("witness needs {} codewords, capacity {}", cw.len(), cap));
+    }
+    if cw.len() < cap {
+        cw.push(129);
+        while cw.len() < cap {
+            let pos = cw.len() + 1;
+            cw.push(rand253(pos));
+        }
+    }
+    Ok(cw)
 }
 
 // ---------------------------------------------------------------------------------------------
